@@ -168,6 +168,7 @@ var specBig = pbt.Register(&pbt.Spec[Case]{
 		"2^e-1..2^e+1, 3*2^(e-1)-1..+1 for e up to 17 (thorough 20) and 4096m-1..4096m+1 up to 65537; " + rule,
 	Enum: enumerateBig,
 	Run:  Run, Exhaustive: true,
+	Replicas: 4, ReplicaEvery: 8,
 })
 
 func TestC12Big(t *testing.T) { pbt.Check(t, specBig) }
